@@ -26,6 +26,10 @@ func (s *lazySubContext) GetKey(name string) string {
 	return s.sub.GetKey(name)
 }
 
+func (s *lazySubContext) InStaticAnalysis() bool {
+	return expressions.InStaticAnalysis(s.sub)
+}
+
 func keyBuilderToFunction(stage *expressions.CompiledKeyBuilder) expressions.KeyBuilderFunction {
 	return func(args []expressions.KeyBuilderStage) (expressions.KeyBuilderStage, error) {
 		ctxPool := slicepool.NewObjectPoolEx(5, func() *lazySubContext {
